@@ -37,7 +37,7 @@ func covers(key, ip string) bool {
 }
 
 type IPMStep struct {
-	Op     string `json:"op"` // bl-add | bl-rm | wl-add | wl-rm | query
+	Op     string `json:"op"` // bl-add | bl-rm | wl-add | wl-rm | query | restart (new IPManager over the same storage)
 	Target int    `json:"target"`
 	AtMs   int    `json:"at_ms"`
 	DurMs  int    `json:"dur_ms,omitempty"` // bl-add: 0 = permanent
@@ -52,7 +52,7 @@ func genIPM(t *rapid.T) IPMCase {
 	n := rapid.IntRange(4, 12).Draw(t, "nsteps")
 	var bounds []int
 	T := 0
-	ops := []string{"bl-add", "bl-add", "bl-add", "bl-add", "bl-add", "query", "query", "query", "query", "query", "requery", "requery", "bl-rm", "wl-add", "wl-rm"}
+	ops := []string{"bl-add", "bl-add", "bl-add", "bl-add", "bl-add", "query", "query", "query", "query", "query", "requery", "requery", "bl-rm", "wl-add", "wl-rm", "restart", "restart"}
 	grid := []int{0, 0, 0, 3, 10, 30, 50, 70, 135, 135, 135, 200}
 	for i := 0; i < n && T < 900; i++ {
 		s := IPMStep{Op: rapid.SampledFrom(ops).Draw(t, "op")}
@@ -102,7 +102,7 @@ func runIPM(t vkit.TB, c IPMCase) {
 	start := time.Now()
 	now := func() time.Duration { return time.Since(start) }
 	var trace []string
-	refused, afterExpiry, checked := 0, 0, 0
+	refused, afterExpiry, checked, restarts, refusedAfterRestart := 0, 0, 0, 0, 0
 	feats := map[string]int{}
 	for si, s := range c.Steps {
 		sleepUntil(start, s.AtMs)
@@ -119,6 +119,15 @@ func runIPM(t vkit.TB, c IPMCase) {
 			}
 			m.addBlack(key, ival{b, a}, ms(s.DurMs))
 			trace = append(trace, fmt.Sprintf("%d:bl-add %s %dms [%v,%v]", si, key, s.DurMs, b.Round(time.Microsecond), a.Round(time.Microsecond)))
+		case "restart":
+			// restart / second node: the lists are persisted, so a new manager over the same storage must answer alike.
+			// Let the old manager's asynchronous removals finish first (they belong to the old process).
+			time.Sleep(3 * time.Millisecond)
+			ipm = security.NewIPManager(srv.Storage, srv.Ctx)
+			m.reload()
+			restarts++
+			feats["restart"]++
+			trace = append(trace, fmt.Sprintf("%d:restart (new IPManager over the same storage) @%v", si, now().Round(time.Microsecond)))
 		case "bl-rm":
 			ipm.RemoveFromBlacklist(key)
 			m.removeBlack(key)
@@ -164,12 +173,26 @@ func runIPM(t vkit.TB, c IPMCase) {
 			}
 			if want == No {
 				refused++
+				for k, e := range m.black {
+					if covers(k, key) && e.live(iv) == Yes && e.gen < m.gen {
+						refusedAfterRestart++
+						if e.dur == 0 {
+							feats["permanent-entry-refuses-after-restart"]++
+						} else {
+							feats["running-temporary-entry-refuses-after-restart"]++
+						}
+						break
+					}
+				}
 				if nExpired > 0 {
 					feats["live-entry-next-to-expired-entry"]++
 				}
 			}
 			if nExpired > 0 {
 				afterExpiry++
+				if restarts > 0 && want == Yes {
+					feats["expired-entry-stays-expired-after-restart"]++
+				}
 			}
 			if nLive > 1 {
 				feats["overlapping-live-entries"]++
@@ -186,7 +209,10 @@ func runIPM(t vkit.TB, c IPMCase) {
 	case refused > 0:
 		class = "ipm:refusal"
 	}
-	vkit.Case(class, refused > 0 && afterExpiry > 0, ipmSig(c))
+	if refusedAfterRestart > 0 {
+		class = "ipm:refusal-by-entry-written-before-restart"
+	}
+	vkit.Case(class, (refused > 0 && afterExpiry > 0) || refusedAfterRestart > 0, ipmSig(c))
 	for k, v := range feats {
 		for i := 0; i < v; i++ {
 			vkit.Class("ipm:" + k)
